@@ -51,8 +51,11 @@ func tree(v any) any {
 	return map[string]any{"unknown": fmt.Sprintf("%T", v)}
 }
 
-/* Oracle tables for the external parsers: every string in the document (scrubbed, as
-   GetString hands it on) with the real library's verdict. */
+/*
+Oracle tables for the external parsers: every string in the document (scrubbed, as
+
+	GetString hands it on) with the real library's verdict.
+*/
 func collectStrings(v any, out map[string]bool) {
 	switch x := v.(type) {
 	case string:
@@ -107,6 +110,42 @@ func init() {
 		op["urls"] = urls
 		o := object.Object(doc)
 		key := S(op, "key")
+		if len(L(op, "before")) > 0 && !B(op, "inner") {
+			/* the answer on a copy of the document nobody has touched */
+			alone := Op{}
+			for k, v := range op {
+				if k != "before" {
+					alone[k] = v
+				}
+			}
+			alone["inner"] = true
+			op["alone"] = execs["accessor"](alone)
+		}
+		/* accessors called on the same document first: a result may not depend on them */
+		for _, raw := range L(op, "before") {
+			b := raw.([]any)
+			bk := b[1].(string)
+			switch b[0].(string) {
+			case "any":
+				o.GetAny(bk)
+			case "string":
+				o.GetString(bk)
+			case "number":
+				o.GetNumber(bk)
+			case "object":
+				o.GetObject(bk)
+			case "list":
+				o.GetList(bk)
+			case "time":
+				o.GetTime(bk)
+			case "url":
+				o.GetURL(bk)
+			case "mediatype":
+				o.GetMediaType(bk)
+			case "markup":
+				o.GetMarkup(bk, "m")
+			}
+		}
 		switch S(op, "acc") {
 		case "any":
 			v, err := o.GetAny(key)
@@ -250,6 +289,17 @@ func genC17(r *rand.Rand, n int, emit func(Op)) {
 			parts = append(parts, fmt.Sprintf("%q:%s", "z", genJSONValue(r, 0)))
 		}
 		doc := "{" + strings.Join(parts, ",") + "}"
-		emit(Op{"op": "accessor", "doc": doc, "key": pick(r, keys), "key2": pick(r, keys), "acc": pick(r, accs)})
+		op := Op{"op": "accessor", "doc": doc, "key": pick(r, keys), "key2": pick(r, keys), "acc": pick(r, accs)}
+		if r.Intn(3) == 0 {
+			before := []any{}
+			for k := 1 + r.Intn(3); k > 0; k-- {
+				before = append(before, []any{pick(r, accs), pick(r, keys)})
+			}
+			if r.Intn(2) == 0 {
+				before = append(before, []any{pick(r, accs), op["key"]})
+			}
+			op["before"] = before
+		}
+		emit(op)
 	}
 }
